@@ -140,24 +140,25 @@ type Engine struct {
 }
 
 type decision9 struct {
-	active   bool
-	key      uint64
-	cost     int64
-	used     int64
-	maxCost  int64
-	resident map[uint64]int64
-	est      map[uint64]int64
-	incEst   int64
-	pool     map[uint64]bool
-	victims  map[uint64]bool
-	nReal    int
-	fitsExp  bool
-	lowering bool
-	added    bool
-	wasRes   bool
-	rejected bool
-	rejSeq   uint64
-	tooBig   bool
+	active     bool
+	key        uint64
+	cost       int64
+	used       int64
+	maxCost    int64
+	resident   map[uint64]int64
+	est        map[uint64]int64
+	incEst     int64
+	pool       map[uint64]bool
+	victims    map[uint64]bool
+	victimSeen map[uint64]bool // victims reported through OnEvict (also with a nil value)
+	nReal      int
+	fitsExp    bool
+	lowering   bool
+	added      bool
+	wasRes     bool
+	rejected   bool
+	rejSeq     uint64
+	tooBig     bool
 }
 
 // E is the engine the callbacks talk to.
@@ -268,6 +269,9 @@ func cbExit(v *Val) {
 //go:norace
 func cbEvict(it *ristretto.Item[*Val]) {
 	e := E
+	if e.dec9.active && e.dec9.victimSeen != nil && e.dec9.victims[it.Key] {
+		e.dec9.victimSeen[it.Key] = true
+	}
 	v := it.Value
 	if v == nil {
 		probe(PrNilEvict)
